@@ -201,26 +201,38 @@ def classify(trace):
 
 
 # ---------------------------------------------------------------- generators
-def enumerated(max_len=4):
-    """All well-formed traces of 1..max_len events over the window pfns 4..7 (one order-2 block), orders 0..2,
-    that start with an allocation; the header names pfn 7 as the largest, cores = 2."""
+def enumerated(max_len=4, nested=False):
+    """All traces of 1..max_len aligned events over the window pfns 4..7 (one order-2 block), orders 0..2, that
+    start with an allocation; the header names pfn 7 as the largest, cores = 2.
+    nested=False: the well-formed ones (names enum<i>); nested=True: the others - allocations inside or over a
+    tracked block, whose entries the split loop may overwrite - (names nest<i>); for those the Python reference is
+    undefined and only the extracted model and the extracted trace specification judge the binary."""
     alphabet = [(a, p, k) for a in (True, False) for p in (4, 5, 6, 7) for k in (0, 1, 2) if p % (1 << k) == 0]
-    out = []
+    good, bad = [], []
 
-    def rec(prefix, ref_events):
+    def rec(prefix, ill):
         for (a, p, k) in alphabet:
             if not prefix and not a:
                 continue
             evs = prefix + [Ev(a, p, k, cpu=len(prefix) % 2, pid=1 + len(prefix), flags=GFP_MOVABLE if p & 1 else 0)]
-            r = classify(Trace("x", 7, 2, evs))
-            if r.ill:
-                continue
-            out.append(evs)
-            if len(evs) < max_len:
-                rec(evs, None)
+            now_ill = ill or classify(Trace("x", 7, 2, evs)).ill
+            (bad if now_ill else good).append(evs)
+            if len(evs) < max_len and (nested or not now_ill):
+                rec(evs, now_ill)
 
-    rec([], None)
-    return [Trace("enum%d" % i, 7, 2, evs) for i, evs in enumerate(out)]
+    rec([], False)
+    if nested:
+        return [Trace("nest%d" % i, 7, 2, evs) for i, evs in enumerate(bad)]
+    return [Trace("enum%d" % i, 7, 2, evs) for i, evs in enumerate(good)]
+
+
+def fixed():
+    """The traces of the Coq examples (ReplayProofs.v: d11_trace, demo_trace), so that they also run on the binary."""
+    d11 = [Ev(True, 2, 1), Ev(False, 3, 0, cpu=1), Ev(False, 2, 0)]
+    demo = [Ev(True, 1024, 10), Ev(False, 1024, 8), Ev(False, 1536, 8, cpu=1), Ev(False, 1792, 8), Ev(False, 1280, 0),
+            Ev(False, 9, 0), Ev(True, 4, 2, flags=GFP_MOVABLE), Ev(True, 4, 2), Ev(False, 6, 1, cpu=1), Ev(True, 16, 3),
+            Ev(False, 16, 3)]
+    return [Trace("coq-d11", 511, 2, d11), Trace("coq-demo", 4095, 2, demo), Trace("coq-demo-classing", 4095, 3, demo, True)]
 
 
 def random_trace(rng, name, nev=None, log_max=None):
